@@ -220,6 +220,9 @@ func c11Program(r *rand.Rand, g *gen.G) ref.Block {
 	case 1:
 		return chain(2 + r.Intn(14))
 	case 2:
+		if r.Intn(6) == 0 { // an ill-formed rule over many matches (more than any batch or buffer size in sight)
+			return illFormed(r, 65+r.Intn(140))
+		}
 		return illFormed(r, r.Intn(4))
 	case 3:
 		b, _ := shapeProgram(r, g)
